@@ -135,7 +135,7 @@ func clip(s string) string {
 	return s
 }
 
-var kinds = []string{"none", "none", "task", "pipeline", "dep", "watcher", "dupname", "cycle1", "cycle2", "cycle3", "selfdep", "dep-other-pipeline", "dep-task-name", "dep-pipeline-name"}
+var kinds = []string{"none", "none", "task", "pipeline", "dep", "watcher", "dupname", "cycle1", "cycle2", "cycle3", "selfdep", "dep-other-pipeline", "dep-task-name", "dep-pipeline-name", "no-task-no-pipeline"}
 
 func genCase(rt *rapid.T) Case {
 	c := Case{Format: rapid.SampledFrom([]string{"yaml", "yaml", "json", "toml"}).Draw(rt, "format")}
@@ -214,6 +214,9 @@ func genCase(rt *rapid.T) Case {
 			cand = "no-such-stage"
 		}
 		st.Deps = append(st.Deps, cand)
+	case "no-task-no-pipeline":
+		// a stage that has a name but runs nothing
+		st.Task, st.Pipe = "", ""
 	case "dep-task-name":
 		// the name of a task (that some stage runs under another stage name) is not a stage name
 		st.Deps = append(st.Deps, c.Tasks[0])
